@@ -316,7 +316,9 @@ func (s *Session) racCheck(prop string, u0 *Unit, o *Obligation, mv map[string]s
 	old.mem["allocs"] = IntLit(0)
 	cur.mem["allocs"] = IntLit(0)
 	// kernels
+	kernelOK := false
 	if ki := s.preciseKernel(fi.Key, u0.inst); ki != nil && ki.OK {
+		kernelOK = true
 		for ord, lc := range ct.Loops {
 			if lc.Kernel {
 				k := &Kernel{Ord: ord, Name: fmt.Sprintf("K%d", ord), SrcElem: ki.S, DstElem: ki.D, OK: true, X: ki.X, Body: ki.Body}
@@ -375,6 +377,9 @@ func (s *Session) racCheck(prop string, u0 *Unit, o *Obligation, mv map[string]s
 	}
 	unobservable := func(e *SExpr) bool {
 		t := e.String()
+		if !kernelOK && strings.Contains(t, "K(") {
+			return true // no kernel could be extracted from this tree: the clause has no meaning to evaluate
+		}
 		return strings.Contains(t, "allocs")
 	}
 	if ct.Panics != nil {
